@@ -4,6 +4,7 @@
 import NoirVerif.Model.Leader
 import NoirVerif.Model.StateLock
 import NoirVerif.Model.SeqLoop
+import NoirVerif.Model.LoopProto
 namespace Noir.Leader
 
 variable {σ δ : Type}
@@ -113,6 +114,9 @@ theorem upd_other {α β : Type} [DecidableEq α] (f : α → β) (a x : α) (v 
 /-- sum of a function over the enumeration of the end replicas -/
 def total (l : List End) (f : End → Nat) : Nat := (l.map f).sum
 
+theorem total_cons (x : End) (xs : List End) (f : End → Nat) : total (x :: xs) f = f x + total xs f := by
+  simp [total]
+
 theorem total_upd_notin (l : List End) (f : End → Nat) (e : End) (v : Nat) (h : e ∉ l) :
     total l (upd f e v) = total l f := by
   induction l with
@@ -120,11 +124,7 @@ theorem total_upd_notin (l : List End) (f : End → Nat) (e : End) (v : Nat) (h 
   | cons x xs ih =>
     have hx : x ≠ e := fun hh => h (by simp [hh])
     have hxs : e ∉ xs := fun hh => h (by simp [hh])
-    simp only [total, List.map_cons, List.sum_cons] at ih ⊢
-    rw [upd_other f e x v hx]
-    have := ih hxs
-    simp only [total] at this
-    omega
+    rw [total_cons, total_cons, upd_other f e x v hx, ih hxs]
 
 theorem total_upd (l : List End) (hnd : l.Nodup) (f : End → Nat) (e : End) (v : Nat) (h : e ∈ l) :
     total l (upd f e v) + f e = total l f + v := by
@@ -132,17 +132,16 @@ theorem total_upd (l : List End) (hnd : l.Nodup) (f : End → Nat) (e : End) (v 
   | nil => simp at h
   | cons x xs ih =>
     rw [List.nodup_cons] at hnd
+    rw [total_cons, total_cons]
     by_cases hx : x = e
     · subst hx
-      have := total_upd_notin xs f x v hnd.1
-      simp only [total, List.map_cons, List.sum_cons, upd_same] at this ⊢
+      rw [total_upd_notin xs f x v hnd.1, upd_same]
       omega
     · have hm : e ∈ xs := by
         cases h with
         | head => exact absurd rfl hx
         | tail _ hh => exact hh
       have := ih hnd.2 hm
-      simp only [total, List.map_cons, List.sum_cons] at this ⊢
       rw [upd_other f e x v hx]
       omega
 
@@ -150,10 +149,16 @@ theorem total_congr (l : List End) (f g : End → Nat) (h : ∀ e ∈ l, f e = g
   induction l with
   | nil => rfl
   | cons x xs ih =>
-    simp only [total, List.map_cons, List.sum_cons]
-    have := ih (fun e he => h e (by simp [he]))
-    simp only [total] at this
-    rw [h x (by simp), this]
+    rw [total_cons, total_cons, h x (by simp), ih (fun e he => h e (by simp [he]))]
+
+theorem total_le_length (l : List End) (f : End → Nat) (h1 : ∀ e ∈ l, f e ≤ 1) : total l f ≤ l.length := by
+  induction l with
+  | nil => simp [total]
+  | cons x xs ih =>
+    have := ih (fun e he => h1 e (by simp [he]))
+    have hx := h1 x (by simp)
+    rw [total_cons, List.length_cons]
+    omega
 
 /-- pigeonhole: every summand is at most 1 and the sum is the length, so every summand is 1 -/
 theorem all_one_of_total (l : List End) (f : End → Nat) (h1 : ∀ e ∈ l, f e ≤ 1) (hs : total l f = l.length) :
@@ -161,21 +166,10 @@ theorem all_one_of_total (l : List End) (f : End → Nat) (h1 : ∀ e ∈ l, f e
   induction l with
   | nil => intro e he; simp at he
   | cons x xs ih =>
-    have hle : total xs f ≤ xs.length := by
-      clear ih hs
-      induction xs with
-      | nil => simp [total]
-      | cons y ys ih2 =>
-        have := ih2 (fun e he => h1 e (by
-          cases he with
-          | head => simp
-          | tail _ hh => simp [hh]))
-        have hy := h1 y (by simp)
-        simp only [total, List.map_cons, List.sum_cons, List.length_cons] at this ⊢
-        omega
+    have hle := total_le_length xs f (fun e he => h1 e (by simp [he]))
     have hx := h1 x (by simp)
-    simp only [total, List.map_cons, List.sum_cons, List.length_cons] at hs hle
-    have hxs : total xs f = xs.length := by simp only [total]; omega
+    rw [total_cons, List.length_cons] at hs
+    have hxs : total xs f = xs.length := by omega
     intro e he
     cases he with
     | head => omega
@@ -203,7 +197,7 @@ theorem inv_init (L : Layout Host Head Body End) : Inv L (init : St Host Head Bo
   · show 0 = total L.ends (fun _ => 0)
     induction L.ends with
     | nil => rfl
-    | cons x xs ih => simp only [total, List.map_cons, List.sum_cons] at ih ⊢; omega
+    | cons x xs ih => rw [total_cons, ← ih]
 
 theorem not_leader_of_ne (L : Layout Host Head Body End) (r : Head)
     (h : ¬ r = L.leaderOf (L.hostOfHead r)) (h' : Host) : L.leaderOf h' ≠ r := by
@@ -211,4 +205,450 @@ theorem not_leader_of_ne (L : Layout Host Head Body End) (r : Head)
   apply h
   rw [← e, L.leader_host]
 
+
+/-- phases other than the new one, for the leader case analysis -/
+theorem phase_upd_cases (f : Head → Phase) (r x : Head) (v : Phase) :
+    (x = r ∧ upd f r v x = v) ∨ (x ≠ r ∧ upd f r v x = f x) := by
+  by_cases h : x = r
+  · left; subst h; simp
+  · right; exact ⟨h, upd_other f r x v h⟩
+
+theorem inv_step (L : Layout Host Head Body End) (r0 : Head) (b0 : Body)
+    {s s' : St Host Head Body End} (inv : Inv L s) (st : Step L s s') : Inv L s' := by
+  cases st with
+  | headFar r h =>
+    have hrf : s.round r = s.fb r := (inv.round_fb r).2 (by rw [h]; decide)
+    exact {
+      got_le_sent := inv.got_le_sent
+      sent_le_fars := inv.sent_le_fars
+      fars_le_round := fun b x => by
+        show s.fars b ≤ upd s.round r (s.round r + 1) x
+        have := inv.fars_le_round b x
+        unfold upd; split
+        · subst_vars; omega
+        · exact this
+      round_fb := fun x => by
+        show (upd s.phase r .waiting x = .waiting → upd s.round r (s.round r + 1) x = s.fb x + 1) ∧
+             (upd s.phase r .waiting x ≠ .waiting → upd s.round r (s.round r + 1) x = s.fb x)
+        by_cases hx : x = r
+        · subst hx; simp [hrf]
+        · rw [upd_other _ _ _ _ hx, upd_other _ _ _ _ hx]; exact inv.round_fb x
+      fb_le_K := inv.fb_le_K
+      K_le_got := inv.K_le_got
+      got_le_K1 := inv.got_le_K1
+      recv_sum := inv.recv_sum
+      sidx_fb := inv.sidx_fb
+      syncs_a := fun h' => by
+        show (upd s.phase r .waiting (L.leaderOf h') = .emitting ∨ upd s.phase r .waiting (L.leaderOf h') = .waiting) → _
+        intro hp
+        rcases phase_upd_cases s.phase r (L.leaderOf h') .waiting with ⟨e, _⟩ | ⟨_, e2⟩
+        · exact inv.syncs_a h' (Or.inl (by rw [e]; exact h))
+        · rw [e2] at hp; exact inv.syncs_a h' hp
+      syncs_b := fun h' => by
+        show (upd s.phase r .waiting (L.leaderOf h') = .atBarrier ∨ upd s.phase r .waiting (L.leaderOf h') = .released) → _
+        intro hp
+        rcases phase_upd_cases s.phase r (L.leaderOf h') .waiting with ⟨_, e2⟩ | ⟨_, e2⟩
+        · rw [e2] at hp; rcases hp with hp | hp <;> cases hp
+        · rw [e2] at hp; exact inv.syncs_b h' hp
+      passed_sync := inv.passed_sync }
+  | bodyPass b h1 h2 =>
+    exact {
+      got_le_sent := inv.got_le_sent
+      sent_le_fars := inv.sent_le_fars
+      fars_le_round := inv.fars_le_round
+      round_fb := inv.round_fb
+      fb_le_K := inv.fb_le_K
+      K_le_got := inv.K_le_got
+      got_le_K1 := inv.got_le_K1
+      recv_sum := inv.recv_sum
+      sidx_fb := inv.sidx_fb
+      syncs_a := inv.syncs_a
+      syncs_b := inv.syncs_b
+      passed_sync := fun x => by
+        show upd s.passed b true x = true → _
+        by_cases hx : x = b
+        · subst hx; intro _; exact h2
+        · rw [upd_other _ _ _ _ hx]; exact inv.passed_sync x }
+  | bodyFar b h =>
+    exact {
+      got_le_sent := inv.got_le_sent
+      sent_le_fars := fun e x => by
+        show s.sent e ≤ upd s.fars b (s.fars b + 1) x
+        have := inv.sent_le_fars e x
+        unfold upd; split
+        · subst_vars; omega
+        · exact this
+      fars_le_round := fun x r => by
+        show upd s.fars b (s.fars b + 1) x ≤ s.round r
+        have := inv.fars_le_round x r
+        have := h r
+        unfold upd; split
+        · omega
+        · assumption
+      round_fb := inv.round_fb
+      fb_le_K := inv.fb_le_K
+      K_le_got := inv.K_le_got
+      got_le_K1 := inv.got_le_K1
+      recv_sum := inv.recv_sum
+      sidx_fb := inv.sidx_fb
+      syncs_a := inv.syncs_a
+      syncs_b := inv.syncs_b
+      passed_sync := fun x => by
+        show upd s.passed b false x = true → upd s.fars b (s.fars b + 1) x ≤ _
+        by_cases hx : x = b
+        · subst hx; simp
+        · rw [upd_other _ _ _ _ hx, upd_other _ _ _ _ hx]; exact inv.passed_sync x }
+  | endSend e h =>
+    exact {
+      got_le_sent := fun x => by
+        show s.got x ≤ upd s.sent e (s.sent e + 1) x
+        have := inv.got_le_sent x
+        unfold upd; split
+        · subst_vars; omega
+        · exact this
+      sent_le_fars := fun x b => by
+        show upd s.sent e (s.sent e + 1) x ≤ s.fars b
+        have := inv.sent_le_fars x b
+        have := h b
+        unfold upd; split
+        · omega
+        · assumption
+      fars_le_round := inv.fars_le_round
+      round_fb := inv.round_fb
+      fb_le_K := inv.fb_le_K
+      K_le_got := inv.K_le_got
+      got_le_K1 := inv.got_le_K1
+      recv_sum := inv.recv_sum
+      sidx_fb := inv.sidx_fb
+      syncs_a := inv.syncs_a
+      syncs_b := inv.syncs_b
+      passed_sync := inv.passed_sync }
+  | leaderRecv e h1 h2 =>
+    -- got e < sent e ≤ fars b0 ≤ round r0 ≤ fb r0 + 1 ≤ K + 1
+    have c1 := inv.sent_le_fars e b0
+    have c2 := inv.fars_le_round b0 r0
+    have c3 : s.round r0 ≤ s.fb r0 + 1 := by
+      by_cases hp : s.phase r0 = .waiting
+      · have := (inv.round_fb r0).1 hp; omega
+      · have := (inv.round_fb r0).2 hp; omega
+    have c4 := inv.fb_le_K r0
+    have c5 := inv.K_le_got e
+    have hge : s.got e = s.K := by omega
+    exact {
+      got_le_sent := fun x => by
+        show upd s.got e (s.got e + 1) x ≤ s.sent x
+        have := inv.got_le_sent x
+        unfold upd; split
+        · subst_vars; omega
+        · exact this
+      sent_le_fars := inv.sent_le_fars
+      fars_le_round := inv.fars_le_round
+      round_fb := inv.round_fb
+      fb_le_K := inv.fb_le_K
+      K_le_got := fun x => by
+        show s.K ≤ upd s.got e (s.got e + 1) x
+        have := inv.K_le_got x
+        unfold upd; split
+        · omega
+        · exact this
+      got_le_K1 := fun x => by
+        show upd s.got e (s.got e + 1) x ≤ s.K + 1
+        have := inv.got_le_K1 x
+        unfold upd; split
+        · omega
+        · exact this
+      recv_sum := by
+        show s.received + 1 = total L.ends (fun x => upd s.got e (s.got e + 1) x - s.K)
+        have hfun : (fun x => upd s.got e (s.got e + 1) x - s.K) = upd (fun x => s.got x - s.K) e 1 := by
+          funext x
+          unfold upd; split
+          · omega
+          · rfl
+        rw [hfun]
+        have h3 := total_upd L.ends L.ends_nodup (fun x => s.got x - s.K) e 1 (L.ends_all e)
+        have h4 := inv.recv_sum
+        omega
+      sidx_fb := inv.sidx_fb
+      syncs_a := inv.syncs_a
+      syncs_b := inv.syncs_b
+      passed_sync := inv.passed_sync }
+  | leaderBroadcast h =>
+    have hall : ∀ e, s.got e = s.K + 1 := by
+      intro e
+      have h1 : ∀ x ∈ L.ends, (fun e => s.got e - s.K) x ≤ 1 := by
+        intro x _; have := inv.got_le_K1 x; simp only; omega
+      have := all_one_of_total L.ends (fun e => s.got e - s.K) h1 (by rw [← inv.recv_sum]; exact h) e (L.ends_all e)
+      have := inv.K_le_got e
+      simp only at *
+      omega
+    exact {
+      got_le_sent := inv.got_le_sent
+      sent_le_fars := inv.sent_le_fars
+      fars_le_round := inv.fars_le_round
+      round_fb := inv.round_fb
+      fb_le_K := fun r => by have := inv.fb_le_K r; show s.fb r ≤ s.K + 1; omega
+      K_le_got := fun e => by show s.K + 1 ≤ s.got e; rw [hall e]; exact Nat.le_refl _
+      got_le_K1 := fun e => by show s.got e ≤ s.K + 1 + 1; rw [hall e]; omega
+      recv_sum := by
+        show 0 = total L.ends (fun e => s.got e - (s.K + 1))
+        rw [total_congr L.ends _ (fun _ => 0) (fun e _ => by rw [hall e]; omega)]
+        clear hall h inv
+        induction L.ends with
+        | nil => rfl
+        | cons x xs ih => rw [total_cons, ← ih]
+      sidx_fb := inv.sidx_fb
+      syncs_a := inv.syncs_a
+      syncs_b := inv.syncs_b
+      passed_sync := inv.passed_sync }
+  | headRecv r h1 h2 =>
+    have hrf : s.round r = s.fb r + 1 := (inv.round_fb r).1 h1
+    exact {
+      got_le_sent := inv.got_le_sent
+      sent_le_fars := inv.sent_le_fars
+      fars_le_round := inv.fars_le_round
+      round_fb := fun x => by
+        show (upd s.phase r .atBarrier x = .waiting → s.round x = upd s.fb r (s.fb r + 1) x + 1) ∧
+             (upd s.phase r .atBarrier x ≠ .waiting → s.round x = upd s.fb r (s.fb r + 1) x)
+        by_cases hx : x = r
+        · subst hx; simp [hrf]
+        · rw [upd_other _ _ _ _ hx, upd_other _ _ _ _ hx]; exact inv.round_fb x
+      fb_le_K := fun x => by
+        show upd s.fb r (s.fb r + 1) x ≤ s.K
+        have := inv.fb_le_K x
+        unfold upd; split
+        · omega
+        · exact this
+      K_le_got := inv.K_le_got
+      got_le_K1 := inv.got_le_K1
+      recv_sum := inv.recv_sum
+      sidx_fb := fun h' => by
+        show (if r = L.leaderOf (L.hostOfHead r) then upd s.sidx (L.hostOfHead r) (s.fb r + 1) else s.sidx) h'
+          = upd s.fb r (s.fb r + 1) (L.leaderOf h')
+        by_cases hl : r = L.leaderOf (L.hostOfHead r)
+        · rw [if_pos hl]
+          by_cases hh : h' = L.hostOfHead r
+          · subst hh; rw [← hl]; simp
+          · have : L.leaderOf h' ≠ r := by
+              intro e; apply hh; rw [← e, L.leader_host]
+            rw [upd_other _ _ _ _ hh, upd_other _ _ _ _ this]; exact inv.sidx_fb h'
+        · rw [if_neg hl, upd_other _ _ _ _ (not_leader_of_ne L r hl h')]; exact inv.sidx_fb h'
+      syncs_a := fun h' => by
+        show (upd s.phase r .atBarrier (L.leaderOf h') = .emitting ∨ upd s.phase r .atBarrier (L.leaderOf h') = .waiting) →
+          s.syncs h' = upd s.fb r (s.fb r + 1) (L.leaderOf h')
+        intro hp
+        rcases phase_upd_cases s.phase r (L.leaderOf h') .atBarrier with ⟨_, e2⟩ | ⟨e1, e2⟩
+        · rw [e2] at hp; rcases hp with hp | hp <;> cases hp
+        · rw [e2] at hp; rw [upd_other _ _ _ _ e1]; exact inv.syncs_a h' hp
+      syncs_b := fun h' => by
+        show (upd s.phase r .atBarrier (L.leaderOf h') = .atBarrier ∨ upd s.phase r .atBarrier (L.leaderOf h') = .released) →
+          s.syncs h' + 1 = upd s.fb r (s.fb r + 1) (L.leaderOf h')
+        intro hp
+        rcases phase_upd_cases s.phase r (L.leaderOf h') .atBarrier with ⟨e1, _⟩ | ⟨e1, e2⟩
+        · rw [e1, upd_same]
+          have := inv.syncs_a h' (Or.inr (by rw [e1]; exact h1))
+          rw [e1] at this; omega
+        · rw [e2] at hp; rw [upd_other _ _ _ _ e1]; exact inv.syncs_b h' hp
+      passed_sync := inv.passed_sync }
+  | barrier h hall =>
+    have hph : ∀ x, ((if L.hostOfHead x = h then Phase.released else s.phase x) = .waiting ↔ s.phase x = .waiting) := by
+      intro x
+      by_cases hx : L.hostOfHead x = h
+      · rw [if_pos hx, hall x hx]; constructor <;> intro hh <;> cases hh
+      · rw [if_neg hx]
+    exact {
+      got_le_sent := inv.got_le_sent
+      sent_le_fars := inv.sent_le_fars
+      fars_le_round := inv.fars_le_round
+      round_fb := fun x => by
+        show ((if L.hostOfHead x = h then Phase.released else s.phase x) = .waiting → _) ∧
+             ((if L.hostOfHead x = h then Phase.released else s.phase x) ≠ .waiting → _)
+        have := inv.round_fb x
+        constructor
+        · intro hw; exact this.1 ((hph x).1 hw)
+        · intro hw; exact this.2 (fun h2 => hw ((hph x).2 h2))
+      fb_le_K := inv.fb_le_K
+      K_le_got := inv.K_le_got
+      got_le_K1 := inv.got_le_K1
+      recv_sum := inv.recv_sum
+      sidx_fb := inv.sidx_fb
+      syncs_a := fun h' => by
+        show ((if L.hostOfHead (L.leaderOf h') = h then Phase.released else s.phase (L.leaderOf h')) = .emitting ∨
+              (if L.hostOfHead (L.leaderOf h') = h then Phase.released else s.phase (L.leaderOf h')) = .waiting) → _
+        intro hp
+        by_cases hx : L.hostOfHead (L.leaderOf h') = h
+        · rw [if_pos hx] at hp; rcases hp with hp | hp <;> cases hp
+        · rw [if_neg hx] at hp; exact inv.syncs_a h' hp
+      syncs_b := fun h' => by
+        show ((if L.hostOfHead (L.leaderOf h') = h then Phase.released else s.phase (L.leaderOf h')) = .atBarrier ∨
+              (if L.hostOfHead (L.leaderOf h') = h then Phase.released else s.phase (L.leaderOf h')) = .released) → _
+        intro hp
+        by_cases hx : L.hostOfHead (L.leaderOf h') = h
+        · exact inv.syncs_b h' (Or.inl (hall _ hx))
+        · rw [if_neg hx] at hp; exact inv.syncs_b h' hp
+      passed_sync := inv.passed_sync }
+  | resume r h =>
+    have hrf : s.round r = s.fb r := (inv.round_fb r).2 (by rw [h]; decide)
+    have hsync_mono : ∀ h', s.syncs h' ≤
+        (if r = L.leaderOf (L.hostOfHead r) then upd s.syncs (L.hostOfHead r) (s.syncs (L.hostOfHead r) + 1) else s.syncs) h' := by
+      intro h'
+      split
+      · unfold upd; split
+        · subst_vars; omega
+        · exact Nat.le_refl _
+      · exact Nat.le_refl _
+    exact {
+      got_le_sent := inv.got_le_sent
+      sent_le_fars := inv.sent_le_fars
+      fars_le_round := inv.fars_le_round
+      round_fb := fun x => by
+        show (upd s.phase r .emitting x = .waiting → _) ∧ (upd s.phase r .emitting x ≠ .waiting → _)
+        by_cases hx : x = r
+        · subst hx; simp [hrf]
+        · rw [upd_other _ _ _ _ hx]; exact inv.round_fb x
+      fb_le_K := inv.fb_le_K
+      K_le_got := inv.K_le_got
+      got_le_K1 := inv.got_le_K1
+      recv_sum := inv.recv_sum
+      sidx_fb := inv.sidx_fb
+      syncs_a := fun h' => by
+        show (upd s.phase r .emitting (L.leaderOf h') = .emitting ∨ upd s.phase r .emitting (L.leaderOf h') = .waiting) →
+          (if r = L.leaderOf (L.hostOfHead r) then upd s.syncs (L.hostOfHead r) (s.syncs (L.hostOfHead r) + 1) else s.syncs) h'
+            = s.fb (L.leaderOf h')
+        intro hp
+        rcases phase_upd_cases s.phase r (L.leaderOf h') .emitting with ⟨e1, _⟩ | ⟨e1, e2⟩
+        · -- the local leader of h' resumes: unlock
+          have hh : L.hostOfHead r = h' := by rw [← e1, L.leader_host]
+          have hl : r = L.leaderOf (L.hostOfHead r) := by rw [hh, e1]
+          rw [if_pos hl, hh, upd_same]
+          have := inv.syncs_b h' (Or.inr (by rw [e1]; exact h))
+          exact this
+        · rw [e2] at hp
+          have hne : ¬ (r = L.leaderOf (L.hostOfHead r) ∧ L.hostOfHead r = h') := by
+            intro ⟨a, b⟩; apply e1; rw [← b, ← a]
+          by_cases hl : r = L.leaderOf (L.hostOfHead r)
+          · rw [if_pos hl, upd_other _ _ _ _ (fun e => hne ⟨hl, e.symm⟩)]; exact inv.syncs_a h' hp
+          · rw [if_neg hl]; exact inv.syncs_a h' hp
+      syncs_b := fun h' => by
+        show (upd s.phase r .emitting (L.leaderOf h') = .atBarrier ∨ upd s.phase r .emitting (L.leaderOf h') = .released) →
+          (if r = L.leaderOf (L.hostOfHead r) then upd s.syncs (L.hostOfHead r) (s.syncs (L.hostOfHead r) + 1) else s.syncs) h' + 1
+            = s.fb (L.leaderOf h')
+        intro hp
+        rcases phase_upd_cases s.phase r (L.leaderOf h') .emitting with ⟨_, e2⟩ | ⟨e1, e2⟩
+        · rw [e2] at hp; rcases hp with hp | hp <;> cases hp
+        · rw [e2] at hp
+          have hne : ¬ (r = L.leaderOf (L.hostOfHead r) ∧ L.hostOfHead r = h') := by
+            intro ⟨a, b⟩; apply e1; rw [← b, ← a]
+          by_cases hl : r = L.leaderOf (L.hostOfHead r)
+          · rw [if_pos hl, upd_other _ _ _ _ (fun e => hne ⟨hl, e.symm⟩)]; exact inv.syncs_b h' hp
+          · rw [if_neg hl]; exact inv.syncs_b h' hp
+      passed_sync := fun b hb => Nat.le_trans (inv.passed_sync b hb) (hsync_mono _) }
+
+/-- the host barrier keeps the heads of a host in step (`bar h` = openings of host `h`'s barrier) -/
+structure BarInv (L : Layout Host Head Body End) (s : St Host Head Body End) : Prop where
+  bar_a : ∀ r, s.phase r ≠ .atBarrier → s.fb r = s.bar (L.hostOfHead r)
+  bar_b : ∀ r, s.phase r = .atBarrier → s.fb r = s.bar (L.hostOfHead r) + 1
+
+theorem barInv_step (L : Layout Host Head Body End) {s s' : St Host Head Body End}
+    (inv : BarInv L s) (st : Step L s s') : BarInv L s' := by
+  cases st with
+  | headFar r h =>
+    exact {
+      bar_a := fun x => by
+        show upd s.phase r .waiting x ≠ .atBarrier → _
+        rcases phase_upd_cases s.phase r x .waiting with ⟨e1, _⟩ | ⟨_, e2⟩
+        · intro _; subst e1; exact inv.bar_a _ (by rw [h]; decide)
+        · rw [e2]; exact inv.bar_a x
+      bar_b := fun x => by
+        show upd s.phase r .waiting x = .atBarrier → _
+        rcases phase_upd_cases s.phase r x .waiting with ⟨_, e2⟩ | ⟨_, e2⟩
+        · rw [e2]; intro hh; cases hh
+        · rw [e2]; exact inv.bar_b x }
+  | bodyPass b h1 h2 => exact ⟨inv.bar_a, inv.bar_b⟩
+  | bodyFar b h => exact ⟨inv.bar_a, inv.bar_b⟩
+  | endSend e h => exact ⟨inv.bar_a, inv.bar_b⟩
+  | leaderRecv e h1 h2 => exact ⟨inv.bar_a, inv.bar_b⟩
+  | leaderBroadcast h => exact ⟨inv.bar_a, inv.bar_b⟩
+  | headRecv r h1 h2 =>
+    exact {
+      bar_a := fun x => by
+        show upd s.phase r .atBarrier x ≠ .atBarrier → upd s.fb r (s.fb r + 1) x = _
+        rcases phase_upd_cases s.phase r x .atBarrier with ⟨_, e2⟩ | ⟨e1, e2⟩
+        · rw [e2]; intro hh; exact absurd rfl hh
+        · rw [e2, upd_other _ _ _ _ e1]; exact inv.bar_a x
+      bar_b := fun x => by
+        show upd s.phase r .atBarrier x = .atBarrier → upd s.fb r (s.fb r + 1) x = _
+        rcases phase_upd_cases s.phase r x .atBarrier with ⟨e1, _⟩ | ⟨e1, e2⟩
+        · intro _; subst e1; rw [upd_same]
+          have := inv.bar_a x (by rw [h1]; decide)
+          show s.fb x + 1 = s.bar (L.hostOfHead x) + 1
+          omega
+        · rw [e2, upd_other _ _ _ _ e1]; exact inv.bar_b x }
+  | barrier h hall =>
+    exact {
+      bar_a := fun x => by
+        show (if L.hostOfHead x = h then Phase.released else s.phase x) ≠ .atBarrier →
+          s.fb x = upd s.bar h (s.bar h + 1) (L.hostOfHead x)
+        by_cases hx : L.hostOfHead x = h
+        · intro _; rw [hx, upd_same]
+          have := inv.bar_b x (hall x hx)
+          rw [hx] at this; exact this
+        · rw [if_neg hx, upd_other _ _ _ _ hx]; exact inv.bar_a x
+      bar_b := fun x => by
+        show (if L.hostOfHead x = h then Phase.released else s.phase x) = .atBarrier →
+          s.fb x = upd s.bar h (s.bar h + 1) (L.hostOfHead x) + 1
+        by_cases hx : L.hostOfHead x = h
+        · rw [if_pos hx]; intro hh; cases hh
+        · rw [if_neg hx, upd_other _ _ _ _ hx]; exact inv.bar_b x }
+  | resume r h =>
+    exact {
+      bar_a := fun x => by
+        show upd s.phase r .emitting x ≠ .atBarrier → _
+        rcases phase_upd_cases s.phase r x .emitting with ⟨e1, _⟩ | ⟨_, e2⟩
+        · intro _; subst e1; exact inv.bar_a _ (by rw [h]; decide)
+        · rw [e2]; exact inv.bar_a x
+      bar_b := fun x => by
+        show upd s.phase r .emitting x = .atBarrier → _
+        rcases phase_upd_cases s.phase r x .emitting with ⟨_, e2⟩ | ⟨_, e2⟩
+        · rw [e2]; intro hh; cases hh
+        · rw [e2]; exact inv.bar_b x }
+
+theorem barInv_reachable (L : Layout Host Head Body End) {s : St Host Head Body End}
+    (h : Reachable L s) : BarInv L s := by
+  induction h with
+  | init => exact ⟨fun _ _ => rfl, fun r hh => by cases hh⟩
+  | step _ st ih => exact barInv_step L ih st
+
+theorem inv_reachable (L : Layout Host Head Body End) (r0 : Head) (b0 : Body)
+    {s : St Host Head Body End} (h : Reachable L s) : Inv L s := by
+  induction h with
+  | init => exact inv_init L
+  | step _ st ih => exact inv_step L r0 b0 ih st
+
 end Noir.LoopProto
+
+namespace Noir.SeqLoop
+
+variable {σ δ α : Type}
+
+theorem rounds_ne_nil (l : Loop σ δ α) (feed : Bool) (split : List α → List (List α))
+    (rem : Nat) (S : σ) (inp : List α) : rounds l feed split rem S inp ≠ [] := by
+  cases rem with
+  | zero => simp [rounds]
+  | succ r =>
+    rw [rounds]
+    split <;> simp
+
+/-- the elements returned by `next()` among the leader's actions -/
+def returned (o : List (Leader.Out σ)) : List (Elem σ) :=
+  o.filterMap fun | .elem e => some e | _ => none
+
+theorem expectOuts_returned (init : σ) (d : σ × List α) : ∀ (rs : List (σ × List α)), rs ≠ [] →
+    returned (expectOuts init rs) = [.item (lastD rs d).1, .far]
+  | [], h => absurd rfl h
+  | [(S, o)], _ => by simp [expectOuts, returned, lastD]
+  | (S, o) :: r2 :: rest, _ => by
+    have := expectOuts_returned init d (r2 :: rest) (by simp)
+    simp only [expectOuts, returned, List.filterMap_cons, lastD] at this ⊢
+    exact this
+
+end Noir.SeqLoop
